@@ -57,7 +57,8 @@ def configs(tier):
     for op in BIN:
         for rhs in ("int", "float", "ndarray", "Quantity"):
             for dta in (DT if tier != "quick" else ["float64", "float32", "int64"]):
-                for ua, ub in [("m", "cm"), ("dimensionless", "dimensionless"), ("g", "s")]:
+                for ua, ub in [("m", "cm"), ("dimensionless", "dimensionless"), ("g", "s"), ("km/m", "dimensionless"),
+                               ("percent", "dimensionless")]:
                     sb = () if rhs in ("int", "float") else (2,)
                     dtb = "int64" if rhs == "int" else "float64"
                     if rhs != "Quantity" and ub != "dimensionless" and (ua, ub) != ("m", "cm"):
